@@ -30,6 +30,9 @@ pub struct Case {
     pub normal: P3,
     pub offset: Offset,
     pub t: Iso3D,
+    /// build the mesh flagged as a solid (only meaningful, and only done, for watertight meshes)
+    #[serde(default)]
+    pub solid: bool,
 }
 
 impl Property for C13 {
@@ -52,10 +55,10 @@ impl Property for C13 {
     fn strategy(t: Tier) -> BoxedStrategy<Case> {
         let gmax = t.pick(8, 14);
         let kind = prop_oneof![3 => closed_kind(2), 2 => open_kind(gmax)].boxed();
-        (clean_mesh(kind, 10.0), unit3(), prop_oneof![8 => unif(-0.2, 1.2).prop_map(Offset::Fraction), 1 => any::<u16>().prop_map(Offset::ThroughVertex), 1 => (any::<u16>(), any::<u16>(), any::<u16>()).prop_map(|(a, b, c)| Offset::ThroughThree(a, b, c)), 1 => (any::<u16>(), unif(0.0, 3.1416)).prop_map(|(e, a)| Offset::ThroughEdge(e, a))], iso3(10.0))
-            .prop_map(|(mut mesh, normal, offset, t)| {
+        (clean_mesh(kind, 10.0), unit3(), prop_oneof![8 => unif(-0.2, 1.2).prop_map(Offset::Fraction), 1 => any::<u16>().prop_map(Offset::ThroughVertex), 1 => (any::<u16>(), any::<u16>(), any::<u16>()).prop_map(|(a, b, c)| Offset::ThroughThree(a, b, c)), 1 => (any::<u16>(), unif(0.0, 3.1416)).prop_map(|(e, a)| Offset::ThroughEdge(e, a))], iso3(10.0), any::<bool>())
+            .prop_map(|(mut mesh, normal, offset, t, solid)| {
                 mesh.flip_all = false;
-                Case { mesh, normal, offset, t }
+                Case { mesh, normal, offset, t, solid }
             })
             .boxed()
     }
@@ -156,7 +159,8 @@ fn check(case: &Case) -> Verdict {
         return Verdict::Discard("plane within the margin of a vertex");
     }
     let plane = Plane3::new(UnitVec3::new_normalize(n), d);
-    let mesh = bm.mesh(false);
+    let mesh = bm.mesh(case.solid && bm.topo.closed);
+    cx.label_if(case.solid && bm.topo.closed, "solid_flag");
     cx.label(if bm.topo.closed { "closed_mesh" } else { "open_mesh" });
     let curve_tol = 1e-9 * size;
     // hazard class: the section of an open mesh that ends on the mesh boundary (an open chain of crossings)
@@ -269,7 +273,8 @@ fn check(case: &Case) -> Verdict {
             let ar = |m: &Mesh| Soup { v: m.vertices().to_vec(), f: m.faces().to_vec() }.area();
             let (aa, ab) = (ar(&a), ar(&b));
             ensure!((aa + ab - area).abs() <= 1e-8 * area.max(1e-12) + 1e-9, "C13/split/areas_sum", "piece areas {aa:e} + {ab:e} != {area:e}");
-            ensure!(!a.is_solid() && !b.is_solid(), "C13/split/solid_flag", "split pieces are flagged solid");
+            // (whether the open pieces carry the parent's solid flag is not part of the property; it is only recorded)
+            cx.label_if(a.is_solid() || b.is_solid(), "split_piece_flagged_solid");
             // each piece's vertices lie on the original surface
             for m in [&a, &b] {
                 for p in m.vertices().iter().take(40) {
@@ -277,6 +282,35 @@ fn check(case: &Case) -> Verdict {
                 }
             }
             cx.label("split_pair");
+            // second level: each piece is a mesh in its own right (an open shell: the cut is not capped); its section by
+            // a plane ACROSS the first cut must lie on the plane and on the piece, every curve edge running across one
+            // face of the piece (its midpoint is on the piece's surface)
+            let t0 = if n.x.abs() < 0.9 { crate::oracle::V3::x() } else { crate::oracle::V3::y() };
+            let n2 = n.cross(&t0).normalize();
+            let cen = soup.v.iter().fold(crate::oracle::V3::zeros(), |s, p| s + p.coords) / soup.v.len() as f64;
+            let plane2 = Plane3::new(UnitVec3::new_normalize(n2), n2.dot(&cen) + 0.013 * size);
+            for (who, piece) in [("negative", &a), ("positive", &b)] {
+                let ps = Soup { v: piece.vertices().to_vec(), f: piece.faces().to_vec() };
+                if ps.f.is_empty() {
+                    continue;
+                }
+                let curves2 = match section_of(piece, &plane2, curve_tol) {
+                    Ok(c) => c,
+                    Err(f) => return Verdict::Fail(f),
+                };
+                for c in &curves2 {
+                    let pts = c.points();
+                    for p in pts {
+                        ensure!(plane2.signed_distance_to_point(p).abs() <= (1e-8 * scale).max(2e-6), "C13/piece_section/vertex_off_plane", "section of the {who} piece: a vertex is {:e} from the plane", plane2.signed_distance_to_point(p));
+                        ensure!(ps.closest(p).0 <= 1e-8 * scale, "C13/piece_section/vertex_off_piece", "section of the {who} piece: a vertex is {:e} from the piece", ps.closest(p).0);
+                    }
+                    for w in pts.windows(2) {
+                        let mid = w[0] + (w[1] - w[0]) * 0.5;
+                        ensure!(ps.closest(&mid).0 <= 1e-7 * scale, "C13/piece_section/edge_not_across_a_face", "section of the {who} piece: the middle of a curve edge is {:e} from the piece (the edge does not run across one of its faces)", ps.closest(&mid).0);
+                    }
+                }
+                cx.label("piece_section");
+            }
         }
     }
     // (f) commutes with a rigid motion of mesh and plane together
